@@ -87,6 +87,30 @@ def run_case(c):
                 res.update(evaluations=n + 1, case={"prop": "C10", "kind": "check", "inputs": {"r": canon(r)}})
                 return res
         return {"ok": True, "evaluations": i["n"]}
+    if k == "zones_same_reply":
+        # the SAME listing decoded again after the host zone changed (TZ + tzset) inside one process: each decoding is in the zone
+        # that is current at that moment (a decoding remembered from the earlier zone is an hour or more off)
+        from . import n_c11
+        rnd = random.Random(i["seed"])
+        replies = [gen(rnd) for _ in range(6)]
+        saved = os.environ.get("TZ")
+        n = 0
+        try:
+            for zone in ("UTC", "Asia/Jerusalem", "America/New_York", "UTC", "Australia/Lord_Howe"):
+                n_c11.set_zone(zone)
+                for r in replies:
+                    res = check(r)
+                    n += 1
+                    if not res["ok"]:
+                        res.update(evaluations=n, detail=f"listing decoded again after the zone changed to {zone}", case={"prop": "C10", "kind": "check", "inputs": {"r": canon(r)}})
+                        return res
+        finally:
+            if saved is None:
+                os.environ.pop("TZ", None)
+            else:
+                os.environ["TZ"] = saved
+            time.tzset()
+        return {"ok": True, "evaluations": n}
     if k == "create_readback":
         # the record create_schedule emits, listed back, parses to the same start / end / days; with dst_days the clock is
         # pinned to the days around the DST transitions of two zones (a time that does not exist that day is skipped)
